@@ -11,8 +11,9 @@ import time
 SRC = os.path.realpath(os.environ.get("HEXITAL_SRC", "/repo"))
 VERIF = os.path.dirname(os.path.dirname(os.path.abspath(__file__)))
 
-os.environ["TZ"] = "UTC"
-time.tzset()
+if os.environ.get("HXV_KEEP_TZ") != "1":  # only C18's fresh-process child keeps the zone it was started under
+    os.environ["TZ"] = "UTC"
+    time.tzset()
 
 if SRC in sys.path:
     sys.path.remove(SRC)
